@@ -192,6 +192,7 @@ partial def decStep (j : Json) : E (Step α) := do
   | [.str "wc"] => return .keyWc
   | [.str "iwc"] => return .idxWc
   | [.str "gwc"] => return .gwc
+  | [.str "igwc"] => return .gwc      -- `path[gwc]`: the same step, spelled with brackets
   | [.str "rec"] => return .recur
   | [.str "par"] => return .parent
   | [.str "f", p] => return .filter (← decPred p)
